@@ -26,7 +26,7 @@ FUNCTIONS = ["Input.__enter__", "Input.__exit__", "Input.send", "Input._send", "
              "FullscreenWindow.__enter__/__exit__", "CursorAwareWindow.__enter__/__exit__", "render_to_terminal (body)"]
 BOUNDS = ("contexts: Input (sigint_event x disable_terminal_start_stop), Input nested in Input, FullscreenWindow and "
           "CursorAwareWindow (hide_cursor x keep_last_line) alone and inside an Input, Cbreak (+ its Termmode), Nonblocking, "
-          "Termmode; initial state: 3 tty attribute vectors x 3 status-flag words (O_NONBLOCK set included) x 4 SIGINT "
+          "Termmode; initial state: 4 tty attribute vectors x 3 status-flag words (O_NONBLOCK set included) x 4 SIGINT "
           "dispositions x 2 wake-up fds, Input contexts also in a non-main thread (signal functions raise there, as in CPython); body: up to 2 operations out of {request with nothing pending, request with a key "
           "pending, event trigger, thread-safe trigger, SIGINT during a blocked request, render}; crash point: none or any "
           "model call of the body, raising an ordinary exception or KeyboardInterrupt; the whole scenario repeated 3 times "
@@ -54,7 +54,9 @@ def _custom_handler(signum, frame):
 SIGINTS = [_default_int_handler, 0, 1, _custom_handler]       # default_int_handler, SIG_DFL, SIG_IGN, a user function
 ATTRS = [None,
          [0x500, 5, 0xbf, 0x8a31, 15, 15, [b"\x03", b"\x1c", b"\x7f", b"\x15", b"\x04", 0, 1] + [b"\x00"] * 25],     # already cbreak-like
-         [0x2d02, 4, 0x4bf, 0xa3b, 13, 13, [b"\x03", b"\x1c", b"\x08", b"\x15", b"\x04", 2, 0, b"\x00", b"\x00", b"\x13", b"\x1a"] + [b"\x00"] * 21]]
+         [0x2d02, 4, 0x4bf, 0xa3b, 13, 13, [b"\x03", b"\x1c", b"\x08", b"\x15", b"\x04", 2, 0, b"\x00", b"\x00", b"\x13", b"\x1a"] + [b"\x00"] * 21],
+         # ECHO and ICANON already off, but a timed read (VMIN 0, VTIME 2): only the control characters differ from cbreak mode
+         [0x500, 5, 0xbf, 0x8a31, 15, 15, [b"\x03", b"\x1c", b"\x7f", b"\x15", b"\x04", 2, 0] + [b"\x00"] * 25]]
 FLAGS = [2, 2 | 0o2000, 2 | O_NONBLOCK]
 WAKEUPS = [-1, 7]
 
@@ -88,7 +90,7 @@ def _scenarios(kind, tier, seed, only_body=None):
         for opts in optsets:
             ii = inits
             if tier == "quick":
-                ii = rnd.sample(inits, 6) + [(0, 0, 1, 1), (0, 2, 0, 0)]
+                ii = rnd.sample(inits, 6) + [(0, 0, 1, 1), (0, 2, 0, 0), (3, 0, 0, 0)]
             if kind in ("input", "input_reused", "input_in_input", "fullscreen_in_input"):
                 # the same context entered and left in a thread that is not the main thread (5th component)
                 nm = [i + (True,) for i in (ii if tier != "quick" else rnd.sample(inits, 2) + [(0, 0, 0, 0), (2, 1, 3, 1)])]
@@ -379,6 +381,10 @@ def real_replay(kind, body, opts, init):
         elif ai == 2:
             attrs[3] &= ~termios.ECHO
             attrs[6][termios.VMIN] = 2
+        elif ai == 3:
+            attrs[3] &= ~(termios.ECHO | termios.ICANON)
+            attrs[6][termios.VMIN] = 0
+            attrs[6][termios.VTIME] = 2
         termios.tcsetattr(slave, termios.TCSANOW, attrs)
         fl = fcntl.fcntl(slave, fcntl.F_GETFL)
         if fi == 1:
